@@ -93,6 +93,70 @@ def build_zoo():
         ORIG_ID[cls] = cls.__dict__.get("ID")
 
 
+# ---------------------------------------------------------------------------
+# zoo variants: the same class table built from classes that no naming attribute tells apart.
+#   0  the zoo above (every class has its own name)
+#   1  every user class of one kind is called alike (`Dom`, `Cplx`, ...: what a class factory, `type(...)` called twice or a
+#      re-executed class statement produce), in the module of the harness
+#   2  every user class carries the __name__ / __qualname__ / __module__ of the LIBRARY class of its kind
+# A registry belongs to a class OBJECT: the model's class table is the same for all variants, and so must every history be.
+VARIANTS = {}
+CURRENT = [0]
+_OWN = ("__module__", "__qualname__", "__doc__", "__dict__", "__weakref__", "_instanceNames", "_instanceCanon")
+
+
+def build_variant(v):
+    build_zoo()
+    if 0 not in VARIANTS:
+        VARIANTS[0] = list(ZOO)
+    if v in VARIANTS:
+        return VARIANTS[v]
+    if v not in (1, 2):
+        raise ValueError(f"zoo variant {v!r}")
+    orig = VARIANTS[0]
+    base_of = dict(zip("DCSMR", orig[:5]))
+    common = {"D": "Dom", "C": "Cplx", "S": "Strand", "M": "Mac", "R": "Rxn"}
+    twin = list(orig[:5])
+    for cls in orig[5:]:
+        kind = KIND[cls]
+        par = twin[orig.index(cls.__mro__[1])]
+        ns = {k: x for k, x in cls.__dict__.items() if k not in _OWN and k != "ID"}
+        if v == 1:
+            name = common[kind]
+            ns["__module__"], ns["__qualname__"] = __name__, name
+        else:
+            name = base_of[kind].__name__
+            ns["__module__"], ns["__qualname__"] = base_of[kind].__module__, base_of[kind].__qualname__
+        if ORIG_ID[cls] is not None:
+            ns["ID"] = ORIG_ID[cls]
+        new = type(cls)(name, (par,), ns)
+        KIND[new], FAIL[new], ORIG_ID[new] = kind, FAIL[cls], ORIG_ID[cls]
+        twin.append(new)
+    VARIANTS[v] = twin
+    return twin
+
+
+class zoo_variant:
+    """with zoo_variant(v): ZOO holds the classes of variant v (replaced in place: every user of reg.ZOO follows);
+    variant 0 is restored on exit.  reset() clears the classes of the variant in force: a history must be reset before
+    the variant is left (run_history does)"""
+    def __init__(self, v):
+        self.v = v
+
+    def __enter__(self):
+        ZOO[:] = build_variant(self.v)
+        CURRENT[0] = self.v
+
+    def __exit__(self, *a):
+        ZOO[:] = VARIANTS[0]
+        CURRENT[0] = 0
+
+
+def label(cls):
+    """a name for messages: the class name, with the table index when names do not tell the classes apart"""
+    return cls.__name__ if CURRENT[0] == 0 else f"{cls.__name__}#{ZOO.index(cls)}"
+
+
 def class_table():
     build_zoo()
     out = []
@@ -353,3 +417,19 @@ def register(op):
             except Exception as e:       # a broken observation is an outcome of that history only
                 out.append(Err(type(e).__name__))
         return out
+
+    @op("histories_v")
+    def _(a):
+        """`histories` on a zoo variant (build_variant): [class table, nslots, histories, watch, quiet, variant]"""
+        _, nslots, hs, watch, quiet, v = a
+        plain = class_table()
+        with zoo_variant(v):
+            if class_table() != plain:
+                return Err("VariantClassTableDiffers")
+            out = []
+            for ops in hs:
+                try:
+                    out.append(run_history(nslots, ops, watch, quiet))
+                except Exception as e:
+                    out.append(Err(type(e).__name__))
+            return out
